@@ -29,8 +29,9 @@ theorem normalDistribution_eq_gen (fuel : Nat) (x : K) :
 /-- `Normal`: the fold at 1/2, the start value `sqrt(-2 log a)`, the rational correction (7.47395, 494.877, 1637.72 /
     117.9407, 908.401, 659.935), the Newton-type step (0.75, 0.875, 0.5, /3), the final sign -/
 theorem normal_eq_gen (fuel : Nat) (alfa : K) : normal fuel alfa = Gen.Statan.Normal fuel alfa := by
-  unfold normal Gen.Statan.Normal
-  simp only [Id.run, fold, normalZ1, normalZ0, normalDen, lit, ← normalDistribution_eq_gen]
+  unfold normal normalWith normalTail Gen.Statan.Normal
+  simp only [Id.run, fold, normalZ1, normalZ0, normalDen, lit, ← normalDistribution_eq_gen,
+    StatanGen.normalUpperDirect, Bool.false_eq_true, eq_self, ↓reduceIte]
   split_ifs <;> rfl
 
 /-- `Student`: fold and doubling, `palfa == 0.5`, the closed forms N ≤ 1 and N ≤ 2, Hill's prelude (48, 20700, 98, 16,
